@@ -1,4 +1,4 @@
-import PsecModel.Lemmas.SpecValid2
+import PsecModel.Lemmas.SpecBuild2
 /-!
 # C03 — TR-31 key blocks interoperate with an independent implementation of the specification (partial)
 
@@ -14,9 +14,13 @@ written from the grammar).
   the specification's parser and verifier, which recovers exactly the key and the header**: all four versions, every KBPK
   size, every header / optional-block layout (short and extended lengths, pad block), every key, mask and entropy.
 
-**Not proved, validated on every run by the correspondence** (`spec.tr31_build` → psec `unwrap`): that psec's `unwrap` accepts
-*every* block the specification can build with its encoding freedoms (`spec_valid_unwraps`, kept below as a proposition), and
-that the specification file is a faithful reading of the printed standard (third-party vectors, OpenSSL CMAC).
+* `spec_valid_unwraps` (this file, proof in `Lemmas/SpecBuild{,2}.lean`) — **every key block the specification's builder can emit,
+  with every encoding freedom, is opened by psec's `unwrap` to the same key and header**.
+
+**Not proved, validated on every run by the correspondence**: that the specification file is a faithful reading of the printed
+standard (third-party vectors of the repository's test-suite through `Spec.TR31.unwrap`, OpenSSL's own CMAC against `Spec.cmac`,
+SP 800-38B examples), and — outside both theorems — what psec does with strings that are neither psec's nor the builder's
+output (C02, C15 cover rejection and error classes).
 -/
 namespace Psec.Props.C03
 open Psec Psec.Tr31 Psec.Spec
@@ -37,13 +41,42 @@ theorem wrap_opened_alike (c : Ciphers) (hc : c.Lawful) (kbpk : Bytes) (h : Head
     Props.C01.wrap_unwrap c hc kbpk h hw hnp key mask entropy s hwrap]
   rfl
 
-/-- the remaining grammar-level statement, validated by correspondence, kept visible as a proposition (not asserted) -/
-def spec_valid_unwraps (c : Ciphers) : Prop :=
-  ∀ kbpk h forms padMode key pad lower, h.WF → NoPadIds h.blocks →
-    (2 + key.length + pad.length) % (Spec.TR31.bsOf (h.versionId.headD 0)) = 0 →
-    (Spec.TR31.build c kbpk h forms padMode key pad lower).length ≤ 9999 →
-    Spec.TR31.kbpkOk (h.versionId.headD 0) kbpk = true →
-    unwrapFn c kbpk (Spec.TR31.build c kbpk h forms padMode key pad lower) = .ok (h, key)
+/-- **specification → psec**: psec's `unwrap` opens every key block the specification's builder can emit — any admissible
+length form per optional block (short, or extended with a 1..255-byte length field), any pad-block policy (none when
+aligned, minimal, or oversized by whole cipher blocks), any number of key-padding bytes that completes a cipher block
+(zero included), either hex case — to the same key and header. The side conditions are the builder's own well-formedness
+(`FormsOK`: each length fits its field; pad block size fits one byte; at most 99 blocks; at most 9999 characters; KBPK size
+admitted by the version) -/
+theorem spec_valid_unwraps (c : Ciphers) (hc : c.Lawful) (kbpk : Bytes) (h : Header) (forms : List Nat) (padMode : Nat)
+    (key pad : Bytes) (lower : Bool) (hw : h.WF) (hnp : NoPadIds h.blocks) (hf : FormsOK h.blocks forms)
+    (v : Nat) (hv : h.versionId = [v])
+    (hkp : (2 + key.length + pad.length) % Spec.TR31.bsOf v = 0)
+    (hps : 4 + Spec.TR31.padSize (Spec.TR31.bsOf v) (Spec.TR31.encodeBlocks h.blocks forms).length padMode ≤ 255)
+    (hcnt : h.blocks.length + (Spec.TR31.padBlock (Spec.TR31.bsOf v) (Spec.TR31.encodeBlocks h.blocks forms).length padMode).2 ≤ 99)
+    (hlen : (Spec.TR31.build c kbpk h forms padMode key pad lower).length ≤ 9999)
+    (hk : Spec.TR31.kbpkOk v kbpk = true) :
+    unwrapFn c kbpk (Spec.TR31.build c kbpk h forms padMode key pad lower) = .ok (h, key) :=
+  spec_valid_unwraps' c hc kbpk h forms padMode key pad lower hw hnp hf v hv hkp hps hcnt hlen hk
+
+/-- non-vacuity of `spec_valid_unwraps`: version D, a block in extended form with a 2-byte length field, an oversized pad
+block, zero... (14) key-padding bytes, lower-case hex — every hypothesis holds (kernel-evaluated with the reference AES) -/
+example : unwrapFn refCiphers (List.replicate 16 0x2a)
+    (Spec.TR31.build refCiphers (List.replicate 16 0x2a)
+      { versionId := [68], keyUsage := [80, 48], algorithm := [65], modeOfUse := [69], versionNum := [48, 48],
+        exportability := [78], reserved := [48, 48], blocks := [([75, 83], [49, 50, 51])] }
+      [2] 2 (List.replicate 16 7) (List.replicate 14 9) true) =
+    .ok ({ versionId := [68], keyUsage := [80, 48], algorithm := [65], modeOfUse := [69], versionNum := [48, 48],
+           exportability := [78], reserved := [48, 48], blocks := [([75, 83], [49, 50, 51])] }, List.replicate 16 7) := by
+  refine spec_valid_unwraps refCiphers refCiphers_lawful _ _ _ _ _ _ _ ?_ ?_ ?_ 68 rfl ?_ ?_ ?_ ?_ ?_
+  · exact ⟨by decide, by decide, by decide, by decide, by decide, by decide, by decide,
+      fun p hp => by simp at hp; subst hp; exact ⟨rfl, by decide, by decide⟩, by decide⟩
+  · intro p hp; simp at hp; subst hp; decide
+  · exact ⟨Or.inr ⟨by decide, by decide, by decide⟩, trivial⟩
+  · decide
+  · decide
+  · decide
+  · decide +kernel
+  · decide
 
 /-- non-vacuity: a concrete successful wrap (reference ciphers, version D, 24-byte KBPK, one optional block) — the hypotheses
 of `wrap_is_spec_valid` are met by it (`decide`), so the specification opens it -/
